@@ -216,6 +216,22 @@ func init() {
 		},
 	})
 	register(&PropSpec{
+		ID: "C16",
+		Explanation: "Decided: R-SIBLING - in each of the four UnitsDefinition.Format* functions the amount handed to the per-unit formatter inside the multiplier loop is the " +
+			"math.Floor quotient, never the loop-carried remainder; R-TRIM - digits are trimmed only from renderings known to contain a decimal point, with a cutset that does " +
+			"not also contain the point; R-GRAMMAR - the parser's regexp templates (verbs replaced by quoted-literal placeholders, parsed with regexp/syntax) contain no " +
+			"any-character operator, every named count group needs at least one digit and matches only digits and a literal point, interpolated names are QuoteMeta'd; " +
+			"R-OVERFLOW - every int64 multiplication / addition on values derived from strconv.ParseInt is dominated by an overflow pre-check against MaxInt64 with a " +
+			"positive divisor. NOT decided: the numeric round trip itself, float tolerance, negative component rendering for values above 2^53, FormatLongFloat's %f rendering.",
+		Assumptions: []string{"unit multipliers are positive (NewUnits does not enforce it; a zero or negative multiplier is outside the rule's guard recognition)"},
+		Rules: []func(*Ctx){
+			func(c *Ctx) { c.ruleSibling("R-SIBLING") },
+			func(c *Ctx) { c.ruleTrim("R-TRIM") },
+			func(c *Ctx) { c.ruleGrammar("R-GRAMMAR"); c.R.Floor("R-GRAMMAR", 2) },
+			func(c *Ctx) { c.ruleOverflow("R-OVERFLOW"); c.R.Floor("R-OVERFLOW", 2) },
+		},
+	})
+	register(&PropSpec{
 		ID:       "C19",
 		NeedsGen: true,
 		Explanation: "Decided for module `codegen`: R-INDEX - every constant index into os.Args beyond the schema file is dominated by a length test (no panic without the ignore " +
